@@ -673,7 +673,7 @@ func runMain(args []string) error {
 	if par < 1 {
 		par = 1
 	}
-	e := &env{work: args[3], probe: pf, timeout: 60 * time.Second}
+	e := &env{work: args[3], probe: pf, timeout: 180 * time.Second}
 	if err := os.MkdirAll(e.work, 0755); err != nil {
 		return err
 	}
